@@ -19,7 +19,7 @@
  *                      bit2: control/filterconf exists
  *   cdb                "!" absent | "dir" | "-" empty file | raw:<hex image> | k=v,k=v (hex)
  *   entries            "-" | name:kind:content,...  kind d (directory; content = its filterconf,
- *                      "!" = none) or f (file)
+ *                      "!" = none), f (file) or l (symbolic link; content = the name it points to)
  *   inject             "-" | path:errno,...   path compared with the path handed to open/openat;
  *                      "#read" = read() of .qmail-default fails, "#mmap" = mmap() of users/cdb fails
  * answer:   r=<ret> dp=<hex domainpath> dom=<hex path|-> usr=<hex path|-> ec=<n> gf=<type>:<hex path>|<type>:E<errno>|- gg=<same with userconf_global>
@@ -158,6 +158,11 @@ static void make_entries(const char *dir, char *spec)
 				write_file(sfd, "filterconf", cont, cl);
 				close(sfd); free(cont);
 			}
+		} else if (*k == 'l') {
+			/* a symbolic link; content = the name it points to (relative to this directory) */
+			char *target = (char *)unhex(c, &cl, 1);
+			if (symlinkat(target, dfd, name) != 0) die(name);
+			free(target);
 		} else {
 			unsigned char *cont = unhex(c, &cl, 0);
 			write_file(dfd, name, cont, cl);
